@@ -10,40 +10,59 @@
 From FH Require Import Model.Base Model.BodyConsume Spec.BodyConsumeSpec Proof.BodyConsumeProof.
 Open Scope Z_scope.
 
+(* The requestStream objects of requestStreamPool are shared by all requests of all connections.
+   Every statement below holds for ANY pool of released objects (pool_ok), any choice of the object
+   sync.Pool hands out (r_pick) and ANY release function that leaves the object like a new one
+   (rel_resets); releaseRequestStream, modelled assignment by assignment, is such a function, and
+   C02_pool_reset_matters shows the statements fail for a release that forgets a single field. *)
+Theorem C02_releaseRequestStream_resets : rel_resets releaseRequestStream.
+Proof. exact releaseRequestStream_resets. Qed.
+Print Assumptions C02_releaseRequestStream_resets.
+
 (* Whatever the configuration (StreamRequestBody on/off, MaxRequestBodySize, GetOnly, multipart
    pre-parsing, expectation callbacks, keep-alive), framing (none / Content-Length / any chunk split,
-   extensions, trailer, broken chunk terminators), body size and handler behaviour: if the connection
-   is kept alive, the next head parse starts exactly at the end of the framed body; in particular a
-   body without an end is never followed by another parse. *)
-Theorem C02_next_starts_at_body_end : forall c r evs off,
+   extensions, trailer, broken chunk terminators), body size, bytes inside the body (r_alt) and handler
+   behaviour: if the connection is kept alive, the next head parse starts exactly at the end of the
+   framed body; in particular a body without an end is never followed by another parse. *)
+Theorem C02_next_starts_at_body_end : forall rel c r p evs off p',
+  rel_resets rel -> pool_ok p ->
   wf_cfg c -> wf_req r -> r_lim r = None ->
-  serve_one c r = (evs, Some off) -> framed_len (r_fr r) = Some off.
+  serve_one rel c r p = (evs, Some off, p') -> framed_len (r_fr r) = Some off.
 Proof. exact next_starts_at_body_end. Qed.
 Print Assumptions C02_next_starts_at_body_end.
+
+(* the pool stays clean, whatever happened to the stream (abandoned mid-chunk, errors, detach, hijack) *)
+Theorem C02_pool_stays_clean : forall rel c r p,
+  rel_resets rel -> pool_ok p -> pool_ok (snd (serve_one rel c r p)).
+Proof. exact serve_one_pool. Qed.
+Print Assumptions C02_pool_stays_clean.
 
 (* the behaviours that used to desynchronise the connection now end it; a stream that was read to its
    end may be detached without losing keep-alive *)
 Theorem C02_former_findings_close :
-  snd (serve_one wit_cfg wit_detach) = None /\ snd (serve_one wit_cfg wit_timeout) = None /\
-  snd (serve_one wit_cfg wit_sticky) = None /\ snd (serve_one wit_cfg wit_detach_read) = Some 10000.
+  nxt_of (serve_one releaseRequestStream wit_cfg wit_detach []) = None /\
+  nxt_of (serve_one releaseRequestStream wit_cfg wit_timeout []) = None /\
+  nxt_of (serve_one releaseRequestStream wit_cfg wit_sticky []) = None /\
+  nxt_of (serve_one releaseRequestStream wit_cfg wit_detach_read []) = Some 10000.
 Proof. exact former_findings_close. Qed.
 Print Assumptions C02_former_findings_close.
 
 (* After a rejected expectation (ExpectHandler answering anything but 100, or ContinueHandler
    answering false) the iteration consists of the server's own response carrying Connection: close
-   and the connection is finished: no handler call, no "100 Continue", no further parse — for every
-   request, configuration, body and amount of body already sent. *)
-Theorem C02_rejected_expectation_closes : forall c r,
+   and the connection is finished: no handler call, no "100 Continue", no further parse, no pooled
+   object touched — for every request, configuration, body and pool. *)
+Theorem C02_rejected_expectation_closes : forall rel c r p,
   expectation_rejected c r = true ->
-  exists status, serve_one c r = ([EResp status true], None).
+  exists status, serve_one rel c r p = ([EResp status true], None, p).
 Proof. exact rejected_expectation_closes. Qed.
 Print Assumptions C02_rejected_expectation_closes.
 
-(* Whole connections, any number of pipelined requests: every head parse starts at a message
-   boundary and the server never goes on at another offset. *)
-Theorem C02_body_bytes_never_parsed : forall c, wf_cfg c -> forall rs base,
-  Forall wf_req rs -> Forall (fun r => r_lim r = None) rs ->
-  forall e, In e (serve c rs base) ->
+(* Whole connections, any number of pipelined requests, over any clean pool: every head parse starts
+   at a message boundary, the server never goes on at another offset, and the pool is clean again. *)
+Theorem C02_body_bytes_never_parsed : forall rel c, rel_resets rel -> wf_cfg c -> forall rs base p,
+  pool_ok p -> Forall wf_req rs -> Forall (fun r => r_lim r = None) rs ->
+  pool_ok (snd (serve_p rel c rs base p)) /\
+  forall e, In e (fst (serve_p rel c rs base p)) ->
     match e with
     | EParse off => In off (boundaries base rs)
     | EDesync _ _ _ => False
@@ -60,33 +79,66 @@ Print Assumptions C02_boundary_not_inside.
 
 (* The trace the model produces for any connection satisfies the property oracle `judge` — the
    same function Check/C02Check.v evaluates on the implementation's observed trace. *)
-Theorem C02_model_trace_judged : forall c, wf_cfg c -> forall rs base,
-  Forall wf_req rs -> Forall (fun r => r_lim r = None) rs ->
-  judge c rs (filter visible (serve c rs base)) = true.
-Proof. intros c Wc rs base W L. exact (proj1 (model_trace_judged c Wc rs base W L)). Qed.
+Theorem C02_model_trace_judged : forall rel c, rel_resets rel -> wf_cfg c -> forall rs base p,
+  pool_ok p -> Forall wf_req rs -> Forall (fun r => r_lim r = None) rs ->
+  judge c rs (filter visible (fst (serve_p rel c rs base p))) = true.
+Proof. intros rel c Hr Wc rs base p Hp W L. exact (proj1 (model_trace_judged rel c Hr Wc rs base p Hp W L)). Qed.
 Print Assumptions C02_model_trace_judged.
 
+(* Any number of connections served one after the other over the same pool (streams abandoned in any
+   state by earlier connections included): each connection's trace is judged fine and parses only at
+   its own message boundaries. *)
+Theorem C02_connections_share_a_clean_pool : forall rel c, rel_resets rel -> wf_cfg c -> forall conns p,
+  pool_ok p -> Forall (Forall wf_req) conns -> Forall (Forall (fun r => r_lim r = None)) conns ->
+  Forall2 (fun rs tr => judge c rs (filter visible tr) = true /\
+                        forall e, In e tr -> match e with EParse off => In off (boundaries 0 rs) | EDesync _ _ _ => False | _ => True end)
+          conns (serve_conns rel c conns p).
+Proof. exact conns_judged. Qed.
+Print Assumptions C02_connections_share_a_clean_pool.
+
+(* The statements depend on the reset: with a release that forgets rs.chunkLeft, a body abandoned 60
+   bytes into a 200-byte chunk on one connection makes the next chunked body on ANOTHER connection end
+   147 bytes in, and the server goes on parsing inside it; likewise for totalBytesRead and eof. *)
+Theorem C02_pool_reset_matters :
+  serve_conns releaseRequestStream pool_cfg [[pool_att]; [pool_vic; pool_next]] []
+  = [[EParse 0; EDispatch 1 60 RcErr; EResp 200 true; EClose];
+     [EParse 0; EDispatch 1 0 RcOk; EResp 200 false; EParse 470; EDispatch 2 0 RcOk; EResp 200 false; EClose]]
+  /\ serve_conns release_forgets_chunkLeft pool_cfg [[pool_att]; [pool_vic; pool_next]] []
+  = [[EParse 0; EDispatch 1 60 RcErr; EResp 200 true; EClose];
+     [EParse 0; EDispatch 1 0 RcOk; EResp 200 false; EDesync 1 147 205]]
+  /\ inside_some_message 0 [pool_vic; pool_next] 205 = true.
+Proof. exact pool_reset_matters. Qed.
+Print Assumptions C02_pool_reset_matters.
+
+Theorem C02_pool_reset_matters_other_fields :
+  (exists id rel off, In (EDesync id rel off) (concat (serve_conns release_forgets_total pool_cfg [[fix_a; pool_next]; [fix_b; pool_next]] []))) /\
+  (exists id rel off, In (EDesync id rel off) (concat (serve_conns release_forgets_eof pool_cfg [[chk_a; pool_next]; [chk_a; pool_next]] []))).
+Proof. exact pool_reset_matters_other_fields. Qed.
+Print Assumptions C02_pool_reset_matters_other_fields.
+
 (* partial: requests whose body is cut off by the peer (r_lim = Some a) are modelled and compared
-   with the implementation on every run (the server ends up at the end of input or closes), but the theorems above are stated for complete inputs. *)
+   with the implementation on every run (the server ends up at the end of input or closes), and the
+   pool theorems cover the objects they leave behind, but the offset theorems above are stated for
+   complete inputs. *)
 
 (* non-vacuity *)
 Example C02_ex_stream_ignored_body :
-  serve wit_cfg [mkReq 1 58 false false false (FFixed 10000) None None 0 false RNone FinNone;
-                 mkReq 2 29 true false false FNone None None 0 false RNone FinNone] 0
+  serve wit_cfg [mkReq 1 58 false false false (FFixed 10000) None None 0 false RNone FinNone O None;
+                 mkReq 2 29 true false false FNone None None 0 false RNone FinNone O None] 0
   = [EParse 0; EDispatch 1 0 RcOk; EResp 200 false; EParse 10058; EDispatch 2 0 RcOk; EResp 200 false; EClose].
 Proof. vm_compute. reflexivity. Qed.
 Example C02_ex_too_big_closes :
-  serve wit_cfg [mkReq 1 58 false false false (FFixed 40002) None None 0 false (RUpTo 100) FinNone;
-                 mkReq 2 29 true false false FNone None None 0 false RNone FinNone] 0
+  serve wit_cfg [mkReq 1 58 false false false (FFixed 40002) None None 0 false (RUpTo 100) FinNone O None;
+                 mkReq 2 29 true false false FNone None None 0 false RNone FinNone O None] 0
   = [EParse 0; EDispatch 1 100 RcOk; EResp 200 true; EClose].
 Proof. vm_compute. reflexivity. Qed.
 Example C02_ex_rejected :
   serve (mkCfg true 20000 false true false true false)
-        [mkReq 1 80 false false true (FFixed 64) None None 0 false RNone FinNone;
-         mkReq 2 29 true false false FNone None None 0 false RNone FinNone] 0
+        [mkReq 1 80 false false true (FFixed 64) None None 0 false RNone FinNone O None;
+         mkReq 2 29 true false false FNone None None 0 false RNone FinNone O None] 0
   = [EParse 0; EResp 417 true; EClose].
 Proof. vm_compute. reflexivity. Qed.
 Example C02_ex_judge_rejects_smuggling :
-  judge wit_cfg [wit_detach; mkReq 2 29 true false false FNone None None 0 false RNone FinNone]
+  judge wit_cfg [wit_detach; mkReq 2 29 true false false FNone None None 0 false RNone FinNone O None]
         [EDispatch 1 0 RcOk; EResp 200 false; EDispatch 1000256 0 RcOk; EResp 200 false] = false.
 Proof. vm_compute. reflexivity. Qed.
